@@ -40,7 +40,7 @@ def gen_segment_history(rng, n, strict=False, reject=False):
         elif k == 8:
             ops.append(['remove', rng.randrange(0, 4)])
         elif k == 9:
-            ops.append(rng.choice([['copy', name.lower(), val], ['copy', name.lower(), val], ['reattach', name, val], ['add_twice', name, val]]))
+            ops.append(rng.choice([['copy', name.lower(), val], ['copy', name.lower(), val], ['reattach', name, val], ['add_twice', name, val], ['setelem_attached', name, val]]))
         elif k == 10:
             ops.append(['setlong', name, val])
         else:
@@ -250,6 +250,14 @@ def run_history(h):
                 extra.append(('other', other))
                 root.add(f)
                 spec.add(op[1], op[2])
+            elif kind == 'setelem_attached':
+                # assign, by name, a field object that is currently a child of another segment
+                f = Field(op[1], version=v, validation_level=lvl)
+                f.value = op[2]
+                other.add(f)
+                extra.append(('other', other))
+                setattr(root, op[1].lower(), f)
+                spec.set(op[1], op[2])
             elif kind == 'add_twice':
                 f = Field(op[1], version=v, validation_level=lvl)
                 f.value = op[2]
